@@ -30,6 +30,8 @@ type workJ struct {
 	V1    int    `json:"v1"`
 	Path  string `json:"path"`
 	Ops   []opJ  `json:"ops"`
+	// store 2 only: OnPut callbacks registered before any goroutine starts (1 = once-only, 0 = persistent)
+	Cbs []int `json:"cbs,omitempty"`
 }
 
 // line protocol helper -> parent
@@ -48,6 +50,7 @@ type outJ struct {
 	IndexOK int         `json:"indexok"`
 	Crashed int         `json:"crashed"`
 	Msg     string      `json:"msg,omitempty"`
+	Cb      []uint64    `json:"cb"` // invocations of each registered callback
 }
 
 const watchdogTimeout = 10 * time.Second
